@@ -367,3 +367,72 @@ func FOLD_Kinds(h *rt.H) {
 	h.Assert("events", ev.Equal(ev.Normalise(rec.Events), want))
 	h.Assert("contract", ev.Contract(rec.Events) == "")
 }
+
+type ufT struct{ A int8 }
+
+type ufOuter struct {
+	P *ufT
+	V ufT
+	S []ufT
+	Q []*ufT
+	M map[string]*ufT
+	I interface{}
+	N int8
+}
+
+// FOLD_UserFolders (C12, C09): a folder registered with gotype.Folders for *T is used
+// for T and *T wherever they occur (top level, struct fields, slice and map elements,
+// interface values, behind further pointers) and receives nil for a nil pointer; the
+// events are exactly what the registered function emits.
+func FOLD_UserFolders(h *rt.H) {
+	x := int8(h.U8("x"))
+	folder := func(p *ufT, v structform.ExtVisitor) error {
+		if p == nil {
+			return v.OnString("nil!")
+		}
+		return v.OnInt16(int16(p.A) + 1000)
+	}
+	t := ufT{x}
+	pt := &t
+	e := sNum(int64(x) + 1000)
+	nilE := ev.Event{K: ev.String, Str: []byte("nil!")}
+	key := func(k string) ev.Event { return ev.Event{K: ev.Key, Str: []byte(k)} }
+	var v interface{}
+	var want []ev.Event
+	switch h.Choose("where", 0, 8) {
+	case 0:
+		v, want = &t, []ev.Event{e}
+	case 1:
+		v, want = t, []ev.Event{e}
+	case 2:
+		v, want = (*ufT)(nil), []ev.Event{nilE}
+	case 3:
+		v = ufOuter{P: &t, V: t, S: []ufT{t}, Q: []*ufT{&t, nil}, M: map[string]*ufT{"k": &t}, I: &t, N: 1}
+		want = []ev.Event{{K: ev.ObjStart}, key("p"), e, key("v"), e, key("s"), {K: ev.ArrStart}, e, {K: ev.ArrEnd},
+			key("q"), {K: ev.ArrStart}, e, nilE, {K: ev.ArrEnd}, key("m"), {K: ev.ObjStart}, key("k"), e, {K: ev.ObjEnd},
+			key("i"), e, key("n"), sNum(1), {K: ev.ObjEnd}}
+	case 4:
+		v = ufOuter{V: t, N: 1}
+		want = []ev.Event{{K: ev.ObjStart}, key("p"), nilE, key("v"), e, key("s"), {K: ev.ArrStart}, {K: ev.ArrEnd},
+			key("q"), {K: ev.ArrStart}, {K: ev.ArrEnd}, key("m"), {K: ev.ObjStart}, {K: ev.ObjEnd},
+			key("i"), {K: ev.Nil}, key("n"), sNum(1), {K: ev.ObjEnd}}
+	case 5:
+		v, want = struct{ I interface{} }{t}, []ev.Event{{K: ev.ObjStart}, key("i"), e, {K: ev.ObjEnd}}
+	case 6:
+		v, want = []ufT{t}, []ev.Event{{K: ev.ArrStart}, e, {K: ev.ArrEnd}}
+	case 7:
+		v, want = map[string]ufT{"k": t}, []ev.Event{{K: ev.ObjStart}, key("k"), e, {K: ev.ObjEnd}}
+	case 8:
+		v, want = &pt, []ev.Event{e}
+	}
+	var rec ev.Recorder
+	it, err := gotype.NewIterator(&rec, gotype.Folders(folder))
+	h.Assert("iterator-created", err == nil)
+	if err != nil {
+		return
+	}
+	err = it.Fold(v)
+	h.Assert("no-error", err == nil)
+	h.Assert("events", ev.Equal(ev.Normalise(rec.Events), want))
+	h.Assert("contract", ev.Contract(rec.Events) == "")
+}
